@@ -205,7 +205,7 @@ def abbreviate(hist):
     return {'stop': hist['stop'], 'virtual_end': hist['now'], 'steps': hist['steps'], 'target': hist['target'],
             'callers': [{'i': c['i'], 'called': c['called'], 'done': c['done'],
                          'outcome': None if c['outcome'] is None else (c['outcome'][0], repr(c['outcome'][1])),
-                         'aw_on_target_loop': c['aw_loop_ok'], 'aw_finished': c['aw_finished'],
+                         'aw_on_target_loop': c['aw_loop_ok'], 'aw_started': c['aw_started'], 'aw_finished': c['aw_finished'],
                          'target_running_at_call': c['target_running_at_call']} for c in hist['callers']],
             'loop_in_thread': hist['lit'],
             'target_runs': [(e, hist['run_via'].get((e[1], e[2]))) for e in hist['loop_log'] if e[1] == hist['target']][:30],
